@@ -16,7 +16,7 @@ import (
 	"github.com/Comcast/sheens/core"
 	"github.com/Comcast/sheens/match"
 	"pgregory.net/rapid"
-	"verif/internal/jsongen"
+	"verif/lib/jsongen"
 )
 
 // Op is one operation of an action/guard program.
